@@ -53,6 +53,8 @@ struct Seed {
     /// sample of characters the font maps (independent cmap reader)
     chars: Vec<char>,
     has_layout: bool,
+    /// growth potential of the clean GSUB (see walk::growth_potential)
+    potential: f64,
     walked: RefCell<HashMap<&'static str, Rc<Walked>>>,
 }
 
@@ -83,6 +85,8 @@ struct FontCase {
     /// characters that map to the glyphs the generated lookups talk about
     hot_chars: Vec<char>,
     aots: bool,
+    /// upper bound on the factor by which this font's GSUB can grow a run (1 = not computed / benign)
+    growth: f64,
 }
 
 fn first_member(data: &[u8]) -> Option<sfnt::Font> {
@@ -144,6 +148,7 @@ impl C02 {
                 features: Vec::new(),
                 chars: Vec::new(),
                 has_layout: false,
+                potential: 1.0,
                 walked: RefCell::new(HashMap::new()),
             };
             if let Some(tb) = tables {
@@ -172,9 +177,17 @@ impl C02 {
                     }
                 }
                 s.chars = cmap_sample(&tb, 300);
+                s.potential = tb.gets("GSUB").map_or(1.0, walk::growth_potential);
                 s.tables = Some(tb);
             }
             seeds.push(s);
+        }
+        if std::env::var("C02_POTENTIALS").is_ok() {
+            for s in &seeds {
+                if let Some(d) = s.tables.as_ref().and_then(|t| t.gets("GSUB")) {
+                    eprintln!("POT {:.1} {}", walk::growth_potential(d), s.name);
+                }
+            }
         }
         let big: Vec<usize> = (0..seeds.len()).filter(|&i| !seeds[i].aots && (seeds[i].has_layout || seeds[i].tables.is_none())).collect();
         let aots: Vec<usize> = (0..seeds.len()).filter(|&i| seeds[i].aots && seeds[i].has_layout).collect();
@@ -233,6 +246,7 @@ impl C02 {
             chars: s.chars.clone(),
             hot_chars: Vec::new(),
             aots: s.aots,
+            growth: 1.0,
         }
     }
 }
@@ -520,7 +534,11 @@ impl C02 {
                 })
                 .collect()
         };
+        let axes = if !probe && rng.chance(1, 3) { 1 + rng.below(3) } else { 0 };
         let mut f = sfnt::tables::minimal_font(Vec::new(), n, Some(0x20));
+        if axes > 0 {
+            f.sets("fvar", lay::fvar(rng, axes));
+        }
         let groups = sfnt::cmap::groups12(&map, rng);
         let sub = sfnt::cmap::write_format12(&groups, 0);
         f.sets("cmap", sfnt::cmap::write_cmap(&[sfnt::cmap::Record { platform: 3, encoding: 10, subtable: 0 }], &[sub]));
@@ -530,7 +548,8 @@ impl C02 {
             f.sets("morx", morx::gen_morx(rng, &pool.hot, n, pool.wild));
         } else if !prog.gsub.is_empty() {
             let sd = mk_scripts(gsub_features.len(), rng);
-            match lay::layout_table(&sd, &gsub_features, &prog.gsub, false) {
+            let fv = if axes > 0 && rng.chance(3, 4) { Some(lay::feature_variations(rng, axes, gsub_features.len(), prog.gsub.len(), &prog.exclusive, pool.wild)) } else { None };
+            match lay::layout_table(&sd, &gsub_features, &prog.gsub, false, fv) {
                 Some(tb) => f.sets("GSUB", tb),
                 None => {
                     cx.inconclusive("generator:table-too-big");
@@ -538,20 +557,23 @@ impl C02 {
                 }
             }
         }
-        if !prog.gpos.is_empty() {
+        if !prog.gpos.is_empty() && !rng.chance(1, 8) {
             let sd = mk_scripts(gpos_features.len(), rng);
-            match lay::layout_table(&sd, &gpos_features, &prog.gpos, true) {
+            let fv = if axes > 0 && rng.chance(1, 2) { Some(lay::feature_variations(rng, axes, gpos_features.len(), prog.gpos.len(), &[], pool.wild)) } else { None };
+            match lay::layout_table(&sd, &gpos_features, &prog.gpos, true, fv) {
                 Some(tb) => f.sets("GPOS", tb),
                 None => {
                     cx.inconclusive("generator:table-too-big");
                     return None;
                 }
             }
-        } else if rng.chance(1, 2) {
+        }
+        if rng.chance(1, 3) {
             f.sets("kern", morx::gen_kern(rng, &pool.hot, n, pool.wild));
         }
-        if rng.chance(4, 5) {
-            f.sets("GDEF", lay::gdef(rng, &pool, &[]));
+        if rng.chance(4, 5) || axes > 0 {
+            let ivs = if axes > 0 { Some(lay::item_variation_store(rng, axes, pool.wild)) } else { None };
+            f.sets("GDEF", lay::gdef(rng, &pool, &[], ivs));
         }
         let mut features: Vec<u32> = gsub_features.iter().map(|x| x.0).collect();
         features.extend(gpos_features.iter().map(|x| x.0));
@@ -568,13 +590,14 @@ impl C02 {
             faults: Vec::new(),
             program: Some(if use_morx { "morx" } else { kind }),
             num_glyphs: n,
-            axes: 0,
+            axes,
             scripts: script_tags,
             langs: lang.into_iter().collect(),
             features,
             chars,
             hot_chars,
             aots: false,
+            growth: 1.0,
         })
     }
 }
@@ -891,6 +914,12 @@ impl C02 {
         let text_s: String = call.text.iter().collect();
         let mp = if call.presentation_required { MatchingPresentation::Required } else { MatchingPresentation::NotRequired };
         let script = call.script;
+        if call.text.len().max(8) as f64 * fc.growth > 25_000.0 {
+            // exponential growth of the run is a recorded limitation of allsorts (no limit on the
+            // run length), not something this check judges: keep it out of the workload
+            cx.class("skipped:growth-potential");
+            return;
+        }
         cx.class("calls");
         if cx.verbose {
             eprintln!("CALL {}", call.json(fc).to_string());
@@ -1002,6 +1031,9 @@ impl C02 {
         if call.text.len() == 1 {
             cx.class("text:one-char");
         }
+        if call.text.len() > 64 {
+            cx.class("text:longer-than-64");
+        }
         let after: Vec<u16> = infos.iter().map(|i| i.glyph.glyph_index).collect();
         let mut changed = false;
         if after.len() != before.len() {
@@ -1038,7 +1070,8 @@ impl C02 {
             }
             let h = mix(mix(hash_str(&fc.name), hash_str(&fc.faults.join("|"))), mix(hash_str(&text_s), mix(script as u64, hash_str(&format!("{:?}{:?}", call.features, call.lang)))));
             cx.nontrivial(h);
-            if cx.want_sample() && rng.chance(1, 50) {
+            let sample_this = rng.chance(1, 50); // drawn unconditionally: the case must replay from its seed
+            if sample_this && cx.want_sample() {
                 cx.sample(J::obj(vec![("call", call.json(fc)), ("run_in", J::U(before.len() as u64)), ("run_out", J::U(after.len() as u64)), ("shape_err", J::Bool(was_err))]));
             }
         }
@@ -1129,6 +1162,10 @@ impl Prop for C02 {
             }
             fc.kind = "real-faulted";
             fc.wellformed = false;
+            let p = tables.gets("GSUB").map_or(1.0, walk::growth_potential);
+            // a fault that leaves the (over-approximated) potential of the clean font about
+            // unchanged has not made the font grow runs
+            fc.growth = if p <= 2.0 * self.seeds[si].potential { p.min(8.0) } else { p };
             fc.bytes = tables.build();
             fc
         } else {
@@ -1137,6 +1174,12 @@ impl Prop for C02 {
                 Some(f) => f,
                 None => return,
             };
+            if !fc.program.map_or(false, |p| p.starts_with("grow")) {
+                // "grow" programs are bounded by construction (every pass applied once)
+                if let Some(tables) = sfnt::Font::parse(&fc.bytes) {
+                    fc.growth = tables.gets("GSUB").map_or(1.0, walk::growth_potential);
+                }
+            }
             if rng.chance(1, 3) {
                 if let Some(mut tables) = sfnt::Font::parse(&fc.bytes) {
                     let present: Vec<&'static str> = LAYOUT_TABLES.iter().copied().filter(|t| tables.gets(t).is_some()).collect();
@@ -1153,6 +1196,7 @@ impl Prop for C02 {
                         }
                         fc.kind = "generated-faulted";
                         fc.wellformed = false;
+                        fc.growth = tables.gets("GSUB").map_or(1.0, walk::growth_potential);
                         fc.bytes = tables.build();
                     }
                 }
